@@ -89,8 +89,8 @@ CHECKS = {
         design="DESIGN.md §4 C14",
     ),
     "C09": dict(
-        rules="R09.0-R09.8",
-        what="the options snapshot is computed from every name in OPTIONS_AFFECTING_CACHE; every Options attribute read in the RTA call-graph zone of the cached computation is keyed, keyed separately, not settable, or tabled; print-time options are not read while rendering cached tuples; cache directory derives from both components of python_version; the target options that decide suppression of an import are the ones dep_import_options records; nothing inside the build assigns attributes of Options objects and no private derived state survives apply_changes; ChainedPlugin's data-collecting methods consult every plugin; a module's plugin configuration data is hashed into its interface hash",
+        rules="R09.0-R09.9",
+        what="the options snapshot is computed from every name in OPTIONS_AFFECTING_CACHE; every Options attribute read in the RTA call-graph zone of the cached computation is keyed, keyed separately, not settable, or tabled; print-time options are not read while rendering cached tuples; cache directory derives from both components of python_version; the target options that decide suppression of an import are the ones dep_import_options records; nothing inside the build assigns attributes of Options objects and no private derived state survives apply_changes; ChainedPlugin's data-collecting methods consult every plugin; a module's plugin configuration data is hashed into its interface hash; with --shadow-file the file that is stat'ed, read and hashed for a module is the same one (R09.9)",
         quant="option toggles between runs",
         technique="who-may-read rule over an RTA call graph with annotation-driven receiver typing; constant evaluation of the key tables",
         note="Trusted: receiver typing and call resolution of sa/resolve.py + sa/callgraph.py (name-based fallback for unknown receivers); the ZONE_CUT list and tables/R09.1.json (each entry one construct with a reason). Assumes C02's gates reject on snapshot mismatch (checked by R02.1).",
